@@ -2,3 +2,4 @@ import ZeepModel.Settings
 import ZeepModel.Lex.Base64
 import ZeepModel.Cache
 import ZeepModel.Url
+import ZeepModel.Loader
